@@ -9,6 +9,7 @@ import GasolVerif.Models.PlainIO
 import GasolVerif.Models.EncodingIO
 import GasolVerif.Models.Cmp
 import GasolVerif.Models.MinLen
+import GasolVerif.Models.Realize
 open GasolVerif
 
 def parseWords? (s : String) : Option (List Word) :=
@@ -84,6 +85,7 @@ def handle (line : String) : String :=
   | ["SPECRUN", seed, stack, block, src, tgt, instrs, deps, sched] => Spec.handleSpecRun seed stack block src tgt instrs deps sched
   | ["REALIZES", src, tgt, instrs, deps, ids] => Spec.handleRealizes src tgt instrs deps ids
   | ["MINLEN", src, tgt, instrs, deps] => Spec.handleMinLen src tgt instrs deps
+  | ["REALEXEC", block, src, tgt, instrs, deps, ids, sched] => Spec.handleRealExec norm3 block src tgt instrs deps ids sched
   | ["PLAINPARSE", text] => Plain.handlePlainParse text
   | ["PLAINPRINT", p0, items] => Plain.handlePlainPrint p0 items
   | ["ENC", bs, b0, lim, mode, term, instrs, src, tgt, terms, memenc, pairs, ls, ledges, wts, emp] =>
